@@ -142,5 +142,7 @@ class MessageRouter :
 
     def routeMessage(self, m):
         # print 'ROUTING MSG', m.interface, m.member
-        for r in self._rules.values():
-            r.match(m)
+        # callbacks may add or remove rules (e.g. one-shot subscriptions)
+        for r in list(self._rules.values()):
+            if r.id in self._rules:
+                r.match(m)
